@@ -1047,4 +1047,34 @@ def verifyRRSIGErr (cv : VKey → VSig → List VRec → Verdict) (inPeriod : VS
       else if !isRRset (hdrsOf set) then VErr.missingSigned
       else sigErr (oneSigErr cv inPeriod supAlg tagOf keys set) (uniqueSortedSigs sl) VErr.missingSigned) groups
 
+/-! ## which error `VerifyDS` surfaces -/
+
+inductive DErr | ok | missingKSK | mismatchingDS | unsupported
+deriving Repr, DecidableEq
+
+/-- the loop of `verifyDS` with `lastErr` and the `supported` counter; `total` is the number of
+distinct DS records. -/
+def dsErrLoop (sup : DSRec → Bool) (dmatch : DKey → Nat → Bytes → Bool) (limit : Nat) (keys : List DKey) (total : Nat) :
+    List DSRec → Nat → Option DErr → DErr
+  | [], supd, last =>
+    if total = 0 then DErr.missingKSK
+    else if supd = 0 then DErr.unsupported
+    else last.getD DErr.missingKSK
+  | d :: t, supd, last =>
+    if !sup d then dsErrLoop sup dmatch limit keys total t supd last
+    else
+      let cands := uniqueSortedDKeys (keys.filter (usableDSCandidate limit d))
+      if cands.isEmpty then dsErrLoop sup dmatch limit keys total t (supd + 1) (some DErr.missingKSK)
+      else match hexDecode d.digest with
+        | none => dsErrLoop sup dmatch limit keys total t (supd + 1) (some DErr.mismatchingDS)
+        | some want =>
+          if want.isEmpty then dsErrLoop sup dmatch limit keys total t (supd + 1) (some DErr.mismatchingDS)
+          else if cands.any (fun k => dmatch k d.dt want) then DErr.ok
+          else dsErrLoop sup dmatch limit keys total t (supd + 1) (some DErr.mismatchingDS)
+
+/-- `VerifyDS` with the error it returns (`unsupported` = `(true, ErrFailedToConvertKSK)`). -/
+def verifyDSErr (sup : DSRec → Bool) (dmatch : DKey → Nat → Bytes → Bool) (limit : Nat) (keys : List DKey)
+    (dss : List DSRec) : DErr :=
+  dsErrLoop sup dmatch limit keys (uniqueSortedDS dss).length (uniqueSortedDS dss) 0 none
+
 end SdnsVerif.Model.DnssecPrim
